@@ -199,8 +199,10 @@ theorem VStore.tailBytes_length (s : VStore) :
         rw [← Nat.mul_succ]; congr 1; omega
       omega
 
-/-- **L3, tail codec.**  Hypotheses: the number of values and the data size are `u64` fields. -/
-theorem valueStoreTailDecode_tailBytes (s : VStore) (hn : s.values.length < 2 ^ 64)
+/-- **L3, tail codec.**  Hypotheses: the number of values (indexed store) and the data size are
+    `u64` fields. -/
+theorem valueStoreTailDecode_tailBytes (s : VStore)
+    (hn : s.indexed = true → s.values.length < 2 ^ 64)
     (hd : s.dataSize < 2 ^ 64) : valueStoreTailDecode s.tailBytes = .ok s.tail := by
   unfold VStore.tailBytes VStore.tail
   cases hi : s.indexed with
@@ -213,6 +215,7 @@ theorem valueStoreTailDecode_tailBytes (s : VStore) (hn : s.values.length < 2 ^ 
     simp only [List.singleton_append] at hr ⊢
     simp only [valueStoreTailDecode, if_true, hr, Outcome.ok_bind]
   | true =>
+    have hn := hn hi
     simp only [if_true]
     have hw1 := (neededBytes_spec s.dataSize).2
     have hwf := (neededBytes_spec s.dataSize).1
@@ -280,8 +283,8 @@ theorem VStore.encode_fst_length (s : VStore) :
 
 /-- **L3, in a file**: `valueStoreOpen` at the tail position of an encoded store returns the parsed
     tail and the data region. -/
-theorem valueStoreOpen_encode (s : VStore) (pre post : Bytes) (hn : s.values.length < 2 ^ 64)
-    (hd : s.dataSize < 2 ^ 64) :
+theorem valueStoreOpen_encode (s : VStore) (pre post : Bytes)
+    (hn : s.indexed = true → s.values.length < 2 ^ 64) (hd : s.dataSize < 2 ^ 64) :
     valueStoreOpen (pre ++ (s.encode.1 ++ post)) (pre.length + s.encode.2.1, s.encode.2.2) =
       .ok (s.tail, s.data) := by
   rw [VStore.encode_eq]
